@@ -50,6 +50,10 @@ def pick(rng):
         return {"name": "subst", "kind": "subst"}
     if u < 0.54:
         return {"name": "variational", "kind": "variational"}
+    if u < 0.60:
+        return {"name": "shrinkage", "kind": "shrinkage"}
+    if u < 0.66:
+        return {"name": "timetree", "kind": "timetree"}
     i = rng.randint(0, len(CLI_VECTORS) - 1)
     sub = rng.choice(["mcmc", "mcmc", "advi"])
     return {"name": "cli:%s:%s" % (sub, " ".join(CLI_VECTORS[i])), "kind": "cli", "sub": sub, "args": CLI_VECTORS[i]}
@@ -81,6 +85,10 @@ def _build(recipe):
         return _subst()
     if kind == "variational":
         return _variational()
+    if kind == "shrinkage":
+        return _shrinkage()
+    if kind == "timetree":
+        return _timetree()
     raise ValueError(kind)
 
 
@@ -218,4 +226,54 @@ def _variational():
         dict({"id": "cubo", "type": "CUBO", "samples": 4, "n": 2.0}, **common),
     ]
     dom = {"qx.loc": "real", "qx.scale.unres": "real", "qz.loc": "real", "qz.scale.unres": "real"}
+    return spec, dom
+
+
+def _shrinkage():
+    """Shrinkage / mixture / multivariate priors and the GMRF with covariates."""
+    P, T, D = scenes.param, scenes.transformed, scenes.dist
+    spec = [
+        P("bx", [0.5, -1.0, 2.0]),
+        {"id": "bridge", "type": "BayesianBridge", "x": "bx", "scale": P("b.scale", [1.5]), "alpha": P("b.alpha", [0.5])},
+        {"id": "bridge2", "type": "BayesianBridge", "x": "bx", "scale": P("b2.scale", [0.7]), "alpha": P("b2.alpha", [0.25]),
+         "local_scale": P("b2.local", [1.0, 2.0, 0.5]), "slab": P("b2.slab", [2.0])},
+        {"id": "mixture", "type": "ScaleMixtureNormal", "x": P("mx", [0.3, -0.2]), "loc": P("m.loc", [0.1]),
+         "global_scale": P("m.global", [1.2]), "local_scale": P("m.local", [0.5, 2.0]), "slab": P("m.slab", [3.0])},
+        {"id": "mvn", "type": "MultivariateNormal", "x": P("vx", [0.2, 0.4, -0.1]),
+         "parameters": {"loc": P("v.loc", [0.0, 0.1, 0.2]),
+                        "scale_tril": T("v.tril", "torchtree.distributions.transforms.TrilExpDiagonalTransform", P("v.tril.unres", [0.1, 0.3, -0.2, 0.05, 0.2, 0.0]))}},
+        {"id": "mvn2", "type": "MultivariateNormal", "x": [P("wx1", [0.2]), P("wx2", [0.4, -0.1])],
+         "parameters": {"loc": P("w.loc", [0.0, 0.1, 0.2]), "covariance_matrix": P("w.cov", [[2.0, 0.1, 0.0], [0.1, 1.0, 0.2], [0.0, 0.2, 1.5]])}},
+        {"id": "field", "type": "Parameter", "tensor": [0.1, 0.5, 0.2, -0.3]},
+        {"id": "gmrfc", "type": "GMRFCovariate", "field": "field", "precision": P("g.precision", [2.0]),
+         "covariates": [[1.0, 0.0], [1.0, 1.0], [1.0, 2.0], [1.0, 3.0]], "beta": P("g.beta", [0.1, -0.05])},
+        {"id": "gmrf", "type": "GMRF", "x": "field", "precision": "g.precision"},
+        scenes.joint("joint", ["bridge", "bridge2", "mixture", "mvn", "mvn2", "gmrfc", "gmrf",
+                               D("ln", "torchtree.distributions.log_normal.LogNormal", T("e.field", "torch.distributions.ExpTransform", "field"), {"mean": 1.0, "scale": P("ln.scale", [0.8])})]),
+    ]
+    dom = {"bx": "real", "b.scale": "positive", "b.alpha": "unit", "b2.scale": "positive", "b2.alpha": "unit", "b2.local": "positive", "b2.slab": "positive",
+           "mx": "real", "m.loc": "real", "m.global": "positive", "m.local": "positive", "m.slab": "positive",
+           "vx": "real", "v.loc": "real", "v.tril.unres": "real", "wx1": "real", "wx2": "real", "w.loc": "real",
+           "field": "real", "g.precision": "positive", "g.beta": "real", "ln.scale": "positive"}
+    return spec, dom
+
+
+def _timetree():
+    """Time trees parameterised directly by node heights, with priors and a count likelihood."""
+    from torchtree.evolution.tree_model import TimeTreeModel
+
+    P = scenes.param
+    taxa = dict(zip("ABCDE", [0.0, 0.0, 0.0, 0.0, 0.0]))
+    tree = TimeTreeModel.json_factory("tree", "((((A,B),C),D),E);", [1.0, 2.5, 4.0, 6.0], taxa, internal_heights_id="heights")
+    spec = [
+        tree,
+        {"id": "coal", "type": "ConstantCoalescentModel", "theta": P("theta", [3.0]), "tree_model": "tree"},
+        {"id": "coal.int", "type": "ConstantCoalescentIntegratedModel", "alpha": 2.0, "beta": 1.5, "tree_model": "tree"},
+        {"id": "expcoal", "type": "ExponentialCoalescentModel", "theta": P("theta2", [5.0]), "growth": P("growth", [0.1]), "tree_model": "tree"},
+        {"id": "clock", "type": "StrictClockModel", "tree_model": "tree", "rate": P("rate", [0.01])},
+        {"id": "poisson", "type": "PoissonTreeLikelihood", "tree_model": "tree", "edge_lengths": [0, 1, 0, 2, 1, 0, 1, 3], "branch_model": "clock"},
+        {"id": "ctmc", "type": "CTMCScale", "x": "rate", "tree_model": "tree"},
+        scenes.joint("joint", ["coal", "coal.int", "expcoal", "poisson", "ctmc"]),
+    ]
+    dom = {"heights": "ordered", "theta": "positive", "theta2": "positive", "growth": "real", "rate": "positive"}
     return spec, dom
